@@ -61,6 +61,8 @@ func init() {
 		baseInit()
 		var workers []*pauseWorker
 		var cancel context.CancelFunc
+		var wctx context.Context
+		var ackMode string
 		var calls []*pendingOp
 		self := goid()
 		settleAll := func() {
@@ -113,6 +115,7 @@ func init() {
 				workers, calls = nil, nil
 				var ctx context.Context
 				ctx, cancel = context.WithCancel(context.Background())
+				wctx, ackMode = ctx, str(in, "ack")
 				for i := 0; i < num(in, "n", 1); i++ {
 					w := &pauseWorker{}
 					started := make(chan struct{})
@@ -133,6 +136,18 @@ func init() {
 				return show()
 			case "stop":
 				cancel()
+				return show()
+			case "subscribe":
+				// one more worker starts up and subscribes now (whatever the state of the pipeline)
+				w := &pauseWorker{}
+				started := make(chan struct{})
+				go w.loop(wctx, ackMode == "cancellable", started)
+				select {
+				case <-started:
+				case <-time.After(5 * time.Second):
+					return "harness-error Subscribe() did not return"
+				}
+				workers = append(workers, w)
 				return show()
 			case "busy":
 				i := num(in, "i", 0)
